@@ -210,20 +210,20 @@ SCOPE_TEXT = {
         "breaks: <= 4 bins over {A,B,-}, every cut set (with/without the first segment), min_probes {1,2}",
     ],
     "thorough": [
-        "by_gene: all label sequences <= 6 bins over {A,B,Antitarget,-,CGH} satisfying the premise, 1 chromosome, 4 row-index modes",
-        "by_gene: 2 chromosomes, <= 4 x <= 3 bins, index default/shifted/gapped",
+        "by_gene: all label sequences <= 6 bins over {A,B,Antitarget,-,CGH} satisfying the premise, 1 chromosome, row index default/shifted/gapped",
+        "by_gene: 2 chromosomes, <= 3 x <= 3 bins, index default/gapped",
         "by_gene with comma-joined labels {A,B,'A,B',-}: <= 5 bins, 4 row-index modes",
-        "squash_genes: <= 5 bins over {A,B,Antitarget,-,CGH}, 3 row-index modes, squash_antitarget x max/min",
-        "squash_genes: 2 chromosomes <= 3 x <= 2 bins",
-        "genemetrics: <= 4 bins over {A,B,Antitarget,-,CGH}, index default/gapped, 2 value patterns, threshold {0,0.5,0.2} x min_probes {0,1,2,3} x skip_low x 3 sex settings",
-        "genemetrics: 2 chromosomes <= 3 x <= 2 bins (last = X), threshold {0,0.5,0.2} x min_probes {0,2,3} x skip_low x 3 sex settings",
-        "genemetrics by segment: <= 4 bins over {A,B,Antitarget,-}, every cut set, threshold {0,0.5,0.2} x min_probes {0,1,2,3} x segment columns present/absent",
-        "genemetrics by segment: 2 chromosomes <= 2 x <= 2 bins (last = X), 3 sex settings",
-        "breaks: <= 5 bins over {A,B,Antitarget,-}, index default/gapped, every cut set, min_probes {1,2,3}",
+        "squash_genes: <= 5 bins over {A,B,Antitarget,-}, index default/gapped, squash_antitarget x max/min",
+        "squash_genes: 2 chromosomes <= 3 x <= 2 bins, gapped index",
+        "genemetrics: <= 4 bins over {A,B,Antitarget,-}, index default/gapped, 2 value patterns, threshold {0,0.5,0.2} x min_probes {0,2,3} x skip_low x sex adjustment {none, +1 on X}",
+        "genemetrics: 2 chromosomes <= 2 x <= 2 bins (last = X), threshold {0,0.5,0.2} x min_probes {0,2,3} x skip_low x 3 sex settings",
+        "genemetrics by segment: <= 4 bins over {A,B,Antitarget,-}, gapped index, every cut set (with/without the first segment), threshold {0,0.5} x min_probes {0,2,3} x segment columns present/absent",
+        "genemetrics by segment: 2 chromosomes <= 2 x <= 2 bins (last = X), min_probes 2, 3 sex settings",
+        "breaks: <= 5 bins over {A,B,-}, every cut set (with/without the first segment), min_probes {1,2,3}",
     ],
 }
 # scopes run together in one TLC run (keeps each dump below ~250 MB)
-GROUPS = {"quick": [[1, 2, 3, 4, 5, 6, 7, 8]], "thorough": [[1, 3], [2], [4, 5], [6], [7], [8, 9, 10]]}
+GROUPS = {"quick": [[1, 2, 3, 4, 5, 6, 7, 8]], "thorough": [[1, 2, 3], [4, 5, 6, 7], [8, 9, 10]]}
 
 
 def _set(xs):
@@ -502,7 +502,7 @@ def run(ctx: Ctx):
     if not r.violated:
         raise MachineryError("DesignOldByGene was expected to be violated by ByGeneLabelInclusive (vacuity guard)")
     ctx.exhaustive = "; ".join(names) + " -- every dumped transition replayed"
-    n_rand = 30000 if thorough else 2500
+    n_rand = 20000 if thorough else 2500
     t1 = time.time()
     rnd = ctx.execute(execute, random_inputs(ctx, n_rand))
     print(f"  [c16] random: {len(rnd)} real calls in {time.time() - t1:.1f}s", file=sys.stderr)
